@@ -37,6 +37,12 @@ def jobs(tier):
         # one symbolic UTC offset for all timestamps: the window and the printed dates are those of the local calendar date
         js.append({"for": "C14", "country": country, "subject": ["OUT", "SELL"], "filter": "from-to", "method": "fifo", "b2": "buy", "off": "shared"})
     js.append({"for": "C14", "country": "us", "subject": ["OUT", "SELL"], "filter": "none", "method": "fifo", "b2": "buy", "then_income": True, "years": [2020, 2021]})
+    # one sale spanning two lots in a two-year window: a long-term and a short-term fraction of the same event
+    js.append({"for": "C14", "country": "us", "subject": ["OUT", "SELL"], "filter": "none", "method": "fifo", "b2": "buy", "two_lots": True, "years": [2020, 2021]})
+    # different transaction types that share the Investment Expenses sheet, in different assets
+    for country in ("us", "ie"):
+        js.append({"for": "C14", "country": country, "subject": ["OUT", "FEE"], "filter": "none", "method": "fifo", "b2": "other:LOST"})
+        js.append({"for": "C14", "country": country, "subject": ["INTRA", "MOVE"], "filter": "none", "method": "fifo", "b2": "other:FEE"})
     js.append({"for": "C14", "country": "us", "subject": ["OUT", "GIFT"], "filter": "none", "method": "hifo", "b2": "sell"})
     js.append({"for": "C14", "country": "us", "subject": ["INTRA", "MOVE"], "filter": "none", "method": "lifo", "b2": "sell"})
     if tier == "thorough":
@@ -71,7 +77,7 @@ def select(prop, spec):
 
 def describe(spec):
     if spec["for"] == "C14":
-        return "C14 %s subject=%s:%s filter=%s %s B2=%s%s" % (spec["country"], spec["subject"][0], spec["subject"][1], spec["filter"], spec["method"], spec["b2"], " +sell" if spec.get("b1sell") else "") + (" B1=hold-only" if spec.get("b1") == "hold" else "") + (" offset=shared" if spec.get("off") else "") + (" then-income 2020-2021" if spec.get("then_income") else "")
+        return "C14 %s subject=%s:%s filter=%s %s B2=%s%s" % (spec["country"], spec["subject"][0], spec["subject"][1], spec["filter"], spec["method"], spec["b2"], " +sell" if spec.get("b1sell") else "") + (" B1=hold-only" if spec.get("b1") == "hold" else "") + (" offset=shared" if spec.get("off") else "") + (" then-income 2020-2021" if spec.get("then_income") else "") + (" two-lots 2020-2021" if spec.get("two_lots") else "")
     return "C16 %s lang=%s %s filter=%s %s%s" % (spec["country"], spec["lang"], spec["method"], spec["filter"], spec["shape"], " symbolic-instants" if spec.get("symbolic_instants") else "") + (" [accounting_methods] %d" % spec["config_schedule"] if spec.get("config_schedule") else "")
 
 
@@ -154,11 +160,15 @@ def run_c14(S, spec):
         s1 = s1[:1]
     if spec.get("then_income"):
         s1.append(slot("IN", "INTEREST", asset="B1"))  # an income row right after a (possibly long-term) disposal
+    if spec.get("two_lots"):
+        s1.insert(1, slot("IN", "BUY", asset="B1"))
     s2 = [slot("IN", "BUY", asset="B2")]
     if spec["b2"] == "same":
         s2.append(dict(subj, asset="B2"))  # both assets write on the subject's sheet
     elif spec["b2"] == "sell":
         s2.append(slot("OUT", "SELL", asset="B2"))
+    elif spec["b2"].startswith("other:"):
+        s2.append(slot("OUT", spec["b2"][6:], asset="B2", fee="pos" if spec["b2"][6:] == "FEE" else "none"))
     for i, s in enumerate(s1):
         s["row"] = 10 + i
     for i, s in enumerate(s2):
